@@ -1,6 +1,7 @@
 mod cluster;
 mod conc;
 mod http;
+mod ids;
 mod node;
 mod oplog;
 mod pending;
@@ -15,6 +16,7 @@ fn main() {
     let rest = &args[2..];
     match args[1].as_str() {
         "seq" => seq::main(rest),
+        "ids" => ids::main(rest),
         "cluster" => cluster::main(rest),
         "pending" => pending::main(rest),
         "oplog" => oplog::main(rest),
